@@ -156,7 +156,7 @@ func genRenderCase(rng *rand.Rand) *renderCase {
 		c.Head = false // the overlapping request is recognised by its body
 	}
 	if rng.Intn(40) == 0 {
-		c.Big = []int{4095, 4096, 4097, 8192, 8193, 32767, 32768, 32769, 40000, 65535, 65536, 65537, 100000, 1 << 20}[rng.Intn(14)]
+		c.Big = []int{2047, 2048, 2049, 3000, 4095, 4096, 4097, 8192, 8193, 32767, 32768, 32769, 40000, 65535, 65536, 65537, 100000, 1 << 20}[rng.Intn(18)]
 	}
 	if rng.Intn(4) == 0 {
 		for n := 1 + rng.Intn(2); n > 0; n-- {
@@ -208,6 +208,7 @@ type renderObs struct {
 	pan    interface{}
 	status int
 	ctype  string
+	clen   string // Content-Length as it went out with the status ("" if none)
 	body   []byte
 	ran    bool
 }
@@ -229,6 +230,9 @@ func renderVerdict(c *renderCase, o renderObs) string {
 	wantCT := map[string]string{"json": "application/json; charset=" + cs, "xml": "text/xml; charset=" + cs, "binary": "application/octet-stream", "text": "text/plain; charset=" + cs}[c.Kind]
 	if o.ctype != wantCT {
 		return fmt.Sprintf("Content-Type %q, want %q", o.ctype, wantCT)
+	}
+	if o.clen != "" && !c.Head && o.clen != fmt.Sprint(len(o.body)) {
+		return fmt.Sprintf("Content-Length %q went out with the status, the body that followed has %d bytes (a connection cuts or refuses such a response)", o.clen, len(o.body))
 	}
 	if c.Head {
 		if len(o.body) != 0 {
@@ -387,7 +391,12 @@ func judgeRender(w *core.W, c *renderCase) {
 			}
 		case "json":
 			if len(c.JSONVal) < c.Big {
-				c.JSONVal, _ = json.Marshal(strings.Repeat("j", c.Big))
+				// a document with many members, so that indentation makes it longer
+				rows := make([]string, 1+c.Big/104)
+				for i := range rows {
+					rows[i] = strings.Repeat("j", 100)
+				}
+				c.JSONVal, _ = json.Marshal(map[string]interface{}{"rows": rows, "n": len(rows)})
 			}
 		default:
 			if len(c.Bytes) < c.Big {
@@ -594,6 +603,7 @@ func judgeRender(w *core.W, c *renderCase) {
 		f.ServeHTTP(spy, &http.Request{Method: meth, URL: &url.URL{Path: target, RawQuery: c.Query}, Header: mainHdr})
 	}()
 	o.status, o.body, o.ctype = spy.status, spy.body, strings.Join(spy.h.Values("Content-Type"), " | ")
+	o.clen = strings.Join(spy.h.Values("Content-Length"), " | ")
 	if c.Overlap && o.pan == nil {
 		w.Count("overlapping-requests")
 		if other.status != 299 || string(other.body) != "other-request" {
